@@ -52,7 +52,9 @@ vars == <<file, tmp, litter, alive, fname, mpid, pc, op, seen, vlive, stat,
 view == <<file, tmp, litter, alive, fname, mpid, pc, op, seen, vlive, stat,
           nops, ncrash, busy>>
 
-Proj == [p |-> file["p"], q |-> file["q"], l |-> litter, al |-> alive,
+(* l: files in the directory besides the two names = abandoned + live temporary files *)
+Extra == litter + Cardinality({i \in Inst : tmp[i] # NoTmp})
+Proj == [p |-> file["p"], q |-> file["q"], l |-> Extra, al |-> alive,
          fn |-> <<fname[1], fname[2]>>, mp |-> <<mpid[1], mpid[2]>>]
 
 Init ==
